@@ -114,8 +114,14 @@ VariantTags(tv, j) == SeqMap(LAMBDA a : Var[a], VarIdx(tv, j))
 (* CATALOGUE *)
 Rf(id, o) == [id |-> id, o |-> o]
 COp(n, c) == [n |-> n, c |-> c]
+\* fc: for every element of f that contains a character outside printable ASCII / tab, its
+\* sequence of code points (the element of f is then the marker CpMark); <<>> otherwise.
+\* TLC cannot write control characters, so such content lives in the specification as numbers
+\* and the harness builds the text from them.
+CpMark == "<cp>"
 MkLine(rt, name, refs, f, num, ovs, tg) ==
-  [rt |-> rt, name |-> name, refs |-> refs, f |-> f, num |-> num, ovs |-> ovs, tg |-> tg]
+  [rt |-> rt, name |-> name, refs |-> refs, f |-> f, fc |-> [i \in DOMAIN f |-> <<>>],
+   num |-> num, ovs |-> ovs, tg |-> tg]
 
 Hd(tg)            == MkLine("H", "*", <<>>, <<>>, <<>>, <<>>, tg)
 Cm(text)          == MkLine("#", "*", <<>>, <<text>>, <<>>, <<>>, <<>>)
@@ -132,11 +138,27 @@ Fr(s, ext, exto, pos, aln) == MkLine("F", "*", <<Rf(s, ""), Rf(ext, exto)>>, pos
 Og(n, refs) == MkLine("O", n, refs, <<>>, <<>>, <<>>, <<>>)
 Ug(n, ids)  == MkLine("U", n, SeqMap(LAMBDA x : Rf(x, ""), ids), <<>>, <<>>, <<>>, <<>>)
 Cu(rt, f)   == MkLine(rt, "*", <<>>, f, <<>>, <<>>, <<>>)
+\* comment / custom record whose free text contains special characters (given as code points)
+CmCp(cps)   == [Cm(CpMark) EXCEPT !.fc = <<cps>>]
+CuCp(rt, f, fc) == [Cu(rt, f) EXCEPT !.fc = fc]
+HasCp(l) == \E i \in DOMAIN l.fc : l.fc[i] # <<>>
+
+(* Characters that are content of a line for GFA but a line boundary for some text tools
+   (Python str.splitlines): VT FF FS GS RS NEL LS PS.  A comment is "any text up to the end of
+   the line" (GFA1: "#" lines, GFA2: "# <any text>"), so each of them is comment content.  The
+   GFA2 specification gives no grammar for the fields of a user-defined record and gfapy's generic
+   datatype excludes only tab and newline: the ASCII ones are used in a custom-record field too.
+   CR and LF are the terminator characters themselves and are not used.                        *)
+SplitChars == <<11, 12, 28, 29, 30, 133, 8232, 8233>>
+NAsciiSplit == 5
+SpecialComments == [k \in DOMAIN SplitChars |-> CmCp(<<32, 97, SplitChars[k], 98>>)]       \* "# a?b"
+SpecialCustom == [k \in 1..NAsciiSplit |->
+                    CuCp("X", <<"k", CpMark>>, <<<<>>, <<112, SplitChars[k], 113>>>>)]       \* "X k p?q"
 
 C2M1D1M == <<COp(2, "M"), COp(1, "D"), COp(1, "M")>>
 C1M1I2M == <<COp(1, "M"), COp(1, "I"), COp(2, "M")>>
 
-Cat1 == <<
+Cat1N == <<
   (* 1*) Hd(<<Tg("VN", "Z", "1.0")>>),
   (* 2*) Hd(<<Tg("TS", "i", "10")>>),
   (* 3*) Hd(<<Tg("xx", "i", "1")>>),
@@ -162,12 +184,13 @@ Cat1 == <<
   (*23*) Cm(" comment"),
   (*24*) Cm("  two leading spaces"),
   (*25*) Cm("no space\tbut a tab") >>
+Cat1 == Cat1N \o SpecialComments
 \* lines a line needs besides the definitions of the identifiers it mentions
 Extra1 == [i \in DOMAIN Cat1 |->
   CASE i = 17 -> {10} [] i = 18 -> {12} [] i = 19 -> {10, 14} [] i = 20 -> {10, 14}
     [] i = 22 -> {10} [] OTHER -> {}]
 
-Cat2 == <<
+Cat2N == <<
   (* 1*) Hd(<<Tg("VN", "Z", "2.0")>>),
   (* 2*) Hd(<<Tg("TS", "i", "10")>>),
   (* 3*) Hd(<<Tg("xx", "i", "1")>>),
@@ -201,10 +224,14 @@ Cat2 == <<
   (*31*) Cu("Y", <<"only">>),
   (*32*) Cm(" gfa2 comment"),
   (*33*) Cm("   spaces") >>
+Cat2 == Cat2N \o SpecialComments \o SpecialCustom
 Extra2 == [i \in DOMAIN Cat2 |->
   CASE i = 20 -> {9} [] i = 22 -> {14} [] i = 23 -> {13} [] OTHER -> {}]
 
 Cat(ver)   == IF ver = "gfa1" THEN Cat1 ELSE Cat2
+\* the lines with special characters are kept out of the combinatorial enumeration
+NormalIdx(ver)  == 1..(IF ver = "gfa1" THEN Len(Cat1N) ELSE Len(Cat2N))
+SpecialIdx(ver) == DOMAIN Cat(ver) \ NormalIdx(ver)
 DepExtra(ver) == IF ver = "gfa1" THEN Extra1 ELSE Extra2
 
 -----------------------------------------------------------------------------
@@ -223,6 +250,14 @@ PosFields(l) ==
 IdTag(l) == IF l.rt \in {"L", "C"} /\ l.name # "*" THEN <<"ID:Z:" \o l.name>> ELSE <<>>
 Text(l) == IF l.rt = "#" THEN "#" \o l.f[1]
            ELSE JoinS(<<l.rt>> \o PosFields(l) \o IdTag(l) \o SeqMap(TagText, l.tg), "\t")
+
+\* text of a line with special characters: pieces that are strings or code-point sequences
+RECURSIVE TabJoin(_)
+TabJoin(ps) == IF Len(ps) <= 1 THEN ps ELSE <<ps[1], "\t">> \o TabJoin(Tail(ps))
+Pieces(l) ==
+  LET fp == [i \in DOMAIN l.f |-> IF l.fc[i] # <<>> THEN l.fc[i] ELSE l.f[i]] IN
+  IF l.rt = "#" THEN <<"#", fp[1]>>
+  ELSE TabJoin(<<l.rt>> \o fp \o SeqMap(TagText, l.tg))
 
 WithTags(l, tgs) == IF l.rt = "#" THEN l ELSE [l EXCEPT !.tg = @ \o tgs]
 
@@ -285,7 +320,7 @@ LinesOf(ver, doc) == DocLines(ver, doc, 0, "asc")
 RECURSIVE SubsetsUpTo(_, _)
 SubsetsUpTo(S, k) == IF k = 0 THEN {{}}
                      ELSE LET P == SubsetsUpTo(S, k - 1) IN P \cup {p \cup {x} : p \in P, x \in S}
-ValidDocs(ver, k) == {d \in SubsetsUpTo(DOMAIN Cat(ver), k) \ {{}} : IsValidDoc(LinesOf(ver, d), ver)}
+ValidDocs(ver, k) == {d \in SubsetsUpTo(NormalIdx(ver), k) \ {{}} : IsValidDoc(LinesOf(ver, d), ver)}
 
 \* generator: dependency closure of a set of seed lines
 DefLine(ver, id) == LET D == {j \in DOMAIN Cat(ver) : Named(Cat(ver)[j]) /\ Cat(ver)[j].name = id} IN
@@ -294,13 +329,16 @@ DepNeeds(ver, i) == {DefLine(ver, id) : id \in Mentions(Cat(ver)[i])} \cup DepEx
 RECURSIVE DepClose(_, _)
 DepClose(ver, X) == LET Y == X \cup UNION {DepNeeds(ver, i) : i \in X} IN
                  IF Y = X THEN X ELSE DepClose(ver, Y)
-SeedDocs(ver, k) == {DepClose(ver, s) : s \in SubsetsUpTo(DOMAIN Cat(ver), k) \ {{}}}
+SeedDocs(ver, k) == {DepClose(ver, s) : s \in SubsetsUpTo(NormalIdx(ver), k) \ {{}}}
+\* every line with special characters alone and next to a segment line
+FirstSeg(ver) == CHOOSE i \in NormalIdx(ver) : Cat(ver)[i].rt = "S" /\ \A j \in NormalIdx(ver) : Cat(ver)[j].rt = "S" => i <= j
+SpecialDocs(ver) == UNION {{{i}, {i, FirstSeg(ver)}} : i \in SpecialIdx(ver)}
 
 -----------------------------------------------------------------------------
 (* (c) WRITER NORMAL FORM *)
 \* a written / expected record up to order of tags and spelling
-NormC(l) == [rt |-> l.rt, name |-> l.name, refs |-> l.refs, f |-> l.f, tags |-> CTags(l)]
-HRec(ct) == [rt |-> "H", name |-> "*", refs |-> <<>>, f |-> <<>>, tags |-> {ct}]
+NormC(l) == [rt |-> l.rt, name |-> l.name, refs |-> l.refs, f |-> l.f, fc |-> l.fc, tags |-> CTags(l)]
+HRec(ct) == [rt |-> "H", name |-> "*", refs |-> <<>>, f |-> <<>>, fc |-> <<>>, tags |-> {ct}]
 
 \* header: one record per tag occurrence; VN/TS given again with the same value: once
 RECURSIVE HdrFold(_, _)
